@@ -342,8 +342,23 @@ def run(cmd, log=None, timeout=None, mem_gb=None, stdout_path=None):
 def link_harness(spec, symtab, mangled, workdir):
     out = os.path.join(workdir, spec.fn + ".goto")
     log = os.path.join(workdir, spec.fn + ".link.log")
+    lib_c = KANI_LIB_C
+    if spec.kv.get("alloclimit"):
+        # allocator stub: Kani's C model of __rust_alloc / __rust_alloc_zeroed / __rust_realloc with one added
+        # assertion: a single request above 2^alloclimit bytes is an 'absurd allocation' (natively: abort)
+        lim = int(spec.kv["alloclimit"])
+        src = open(KANI_LIB_C).read()
+        n = 0
+        for fn, var in (("__rust_alloc", "size"), ("__rust_alloc_zeroed", "size"), ("__rust_realloc", "new_size")):
+            pat = re.compile(r"(uint8_t \*" + fn + r"\([^)]*\)\s*\{\n)")
+            src, k = pat.subn(lambda m: m.group(1) + f'    __KANI_assert({var} <= ((size_t)1 << {lim}), "absurd allocation: request above 2^{lim} bytes");\n', src, count=1)
+            n += k
+        if n != 3:
+            raise Inconclusive(f"{spec.id}: could not instrument Kani's allocator model ({n}/3 functions)")
+        lib_c = os.path.join(workdir, spec.fn + ".kani_lib.c")
+        open(lib_c, "w").write(src)
     steps = [
-        ["goto-cc", symtab, KANI_LIB_C, "-o", out],
+        ["goto-cc", symtab, lib_c, "-o", out],
         ["goto-cc", out, "--function", mangled, "-o", out],
         ["goto-instrument", "--add-library", "--no-malloc-may-fail", out, out],
         ["goto-instrument", "--generate-function-body-options", "assert-false-assume-false",
